@@ -9,6 +9,8 @@ type RCallGraph struct {
 }
 
 func NewRCallGraph() RCallGraph {
+	loopCount = 0
+	lastChild = ""
 	return RCallGraph{}
 }
 
@@ -18,6 +20,8 @@ func (c RCallGraph) Analysis(funcName string, clzs []core_domain.CodeDataStruct,
 
 	writeCallback(methodCallMap)
 
+	loopCount = 0
+	lastChild = ""
 	chain := c.BuildRCallChain(funcName, methodCallMap)
 	dotContent := ToGraphviz(chain)
 	return dotContent
